@@ -55,4 +55,8 @@ theorem real_le_iff (a b : ℝ) : (@LE.le ℝ (MjNum.toLE) a b) ↔ a ≤ b := I
 @[simp] theorem real_asin (x : ℝ) : MjNum.asin x = Real.arcsin x := rfl
 @[simp] theorem real_atan2 (y x : ℝ) : MjNum.atan2 y x = realAtan2 y x := rfl
 
+@[simp] theorem real_beq (a b : ℝ) : MjNum.beq a b = decide (a = b) := rfl
+@[simp] theorem real_tan (x : ℝ) : MjNum.tan x = Real.tan x := rfl
+@[simp] theorem real_isNaN (x : ℝ) : MjNum.isNaN x = false := rfl
+
 end MjProof
